@@ -1,7 +1,8 @@
 import Revm.Proofs.EvmLinkInterp4
 /-! LINK, the interpreter side of panic-freedom, part 5: the model facts `MF` of part 2 from the lemmas of part 4 —
 what remains are three closed statements: the output of a halting instruction and the calldata / initcode of an action
-are slices of the memory (`OutB`, `InB`), and the executable precompiles return a Rust `Bytes` (`PcOut`). -/
+are slices of the memory (`OutB`, `InB`), and the executable precompiles return a Rust `Bytes` (`PcOut`) — proved in parts 11 (`outB`), 13 (`inB`) and 14
+(`pcOut`). -/
 set_option linter.unusedSimpArgs false
 set_option linter.unusedVariables false
 namespace Revm.Proofs.EvmLink
